@@ -227,8 +227,9 @@ class SocketStream(Stream):
                 self.sock.shutdown(socket.SHUT_RDWR)
             except Exception:
                 pass
-        self.sock.close()
-        self.sock = ClosedFile
+        # swap first: another thread that uses the stream right now must find it closed, not a dead descriptor
+        sock, self.sock = self.sock, ClosedFile
+        sock.close()
 
     def fileno(self):
         try:
